@@ -86,6 +86,7 @@ func (pConn *PFCPConn) startHeartBeatMonitor() {
 	for {
 		select {
 		case <-hbCtx.Done():
+			verifPoint("conn.hb.cancelled", pConn.RemoteAddr().String())
 			logger.PfcpLog.Infoln("cancel HeartBeat Timer", pConn.RemoteAddr().String())
 			heartBeatExpiryTimer.Stop()
 
@@ -99,6 +100,7 @@ func (pConn *PFCPConn) startHeartBeatMonitor() {
 
 			if _, timeout := pConn.sendPFCPRequestMessage(r); timeout {
 				heartBeatExpiryTimer.Stop()
+				verifPoint("conn.hb.dead", pConn.RemoteAddr().String())
 				pConn.Shutdown()
 			}
 		}
@@ -138,14 +140,17 @@ func (node *PFCPNode) NewPFCPConn(lAddr, rAddr string, buf []byte) *PFCPConn {
 	}
 
 	p.setLocalNodeID(node.upf.nodeID)
+	verifPoint("conn.new.beforeFirst", p)
 
 	if buf != nil {
 		// TODO: Check if the first msg is Association Setup Request
 		p.HandlePFCPMsg(buf)
 	}
 
+	verifPoint("conn.new.afterFirst", rAddr)
 	// Update map of connections
 	node.pConns.Store(rAddr, p)
+	verifPoint("conn.new.stored", rAddr)
 
 	go p.Serve()
 
@@ -195,6 +200,7 @@ func (pConn *PFCPConn) Serve() {
 				if netErr, ok := err.(net.Error); ok && netErr.Timeout() {
 					logger.PfcpLog.Infof("read timeout for connection %v<->%v, is the SMF still alive?",
 						pConn.LocalAddr(), pConn.RemoteAddr())
+					verifPoint("conn.reader.deadline", pConn.RemoteAddr().String())
 					connTimeout <- struct{}{}
 
 					return
@@ -217,13 +223,16 @@ func (pConn *PFCPConn) Serve() {
 	for {
 		select {
 		case <-connTimeout:
+			verifPoint("conn.serve.timeout", pConn.RemoteAddr().String())
 			pConn.Shutdown()
 			return
 		case <-pConn.ctx.Done():
+			verifPoint("conn.serve.ctx", pConn.RemoteAddr().String())
 			pConn.Shutdown()
 			return
 
 		case <-pConn.shutdown:
+			verifPoint("conn.serve.shutdown", pConn.RemoteAddr().String())
 			return
 		}
 	}
@@ -231,7 +240,9 @@ func (pConn *PFCPConn) Serve() {
 
 // Shutdown stops connection backing PFCPConn.
 func (pConn *PFCPConn) Shutdown() {
+	verifPoint("conn.shutdown.enter", pConn.RemoteAddr().String())
 	close(pConn.shutdown)
+	verifPoint("conn.shutdown.closed", pConn.RemoteAddr().String())
 
 	if pConn.hbCtxCancel != nil {
 		pConn.hbCtxCancel()
@@ -240,12 +251,15 @@ func (pConn *PFCPConn) Shutdown() {
 
 	// Cleanup all sessions in this conn
 	for _, sess := range pConn.store.GetAllSessions() {
+		verifPoint("conn.shutdown.session", pConn.RemoteAddr().String(), sess.localSEID)
 		pConn.upf.SendMsgToUPF(upfMsgTypeDel, sess.PacketForwardingRules, PacketForwardingRules{})
 		pConn.RemoveSession(sess)
 	}
 
 	rAddr := pConn.RemoteAddr().String()
+	verifPoint("conn.shutdown.beforeDone", rAddr)
 	pConn.done <- rAddr
+	verifPoint("conn.shutdown.afterDone", rAddr)
 
 	err := pConn.Close()
 	if err != nil {
@@ -254,6 +268,7 @@ func (pConn *PFCPConn) Shutdown() {
 	}
 
 	logger.PfcpLog.Infoln("shutdown complete for", rAddr)
+	verifPoint("conn.shutdown.done", rAddr)
 }
 
 func (pConn *PFCPConn) getSeqNum() uint32 {
